@@ -1,6 +1,7 @@
 package main
 
 import (
+	"go/types"
 	"fmt"
 	"strings"
 
@@ -113,6 +114,10 @@ func checkC06(c *Ctx) {
 		}
 	}
 	if flag != "" {
+		// a boolean marker cannot tell the watcher of this run from the still-finishing watcher of
+		// an earlier run (Start after the Start context was cancelled, or after a Stop that gave up
+		// waiting): the earlier one suppresses this run's watcher and then ends - no watcher at all
+		c.viol("R1", "the marker that suppresses a second follower loop identifies the run", goSite, "the go statement is suppressed by the boolean flag %s; required: a marker that is compared with the run's context (%s), so that a follower loop of an earlier run neither counts as this run's nor clears this run's marker when it ends", strings.TrimPrefix(flag, "&"), m.path(m.Ctx))
 		for _, t := range goSpawn.Targets {
 			cleared := false
 			if len(t.Blocks) > 0 {
@@ -149,6 +154,21 @@ func checkC06(c *Ctx) {
 			}
 			c.check(cleared, "R1", "already-running flag cleared when the follower goroutine ends in "+shortFn(t), goSite, "flag %s is reset on every exit of the goroutine (deferred, unconditional): %v", strings.TrimPrefix(flag, "&"), cleared)
 		}
+	}
+	if flag == "" {
+		// the marker is the run's context: the test at the go statement compares it with the
+		// election context, and the goroutine resets it only while it is still its own
+		marked := false
+		for _, l := range gs {
+			if l.S.Op == "bin" && l.S.Name == "==" && !l.Truth && symMentions(l.S, m.path(m.Ctx)) && len(l.S.Args) == 2 {
+				for i := 0; i < 2; i++ {
+					if l.S.Args[i].String() == m.path(m.Ctx) && l.S.Args[1-i].Op == "path" && strings.HasPrefix(l.S.Args[1-i].Name, m.ImplName+".") {
+						marked = true
+					}
+				}
+			}
+		}
+		c.check(marked, "R1", "the marker that suppresses a second follower loop identifies the run", goSite, "the go statement is guarded by NOT (%s == <marker field>): %v (one follower loop per run; a loop of an earlier run that is still finishing does not count)", m.path(m.Ctx), marked)
 	}
 	// every demote unit has one
 	for _, u := range m.DemoteUnits {
@@ -197,6 +217,70 @@ func checkC06(c *Ctx) {
 	}
 	if nPeriod == 0 {
 		c.viol("R2", "periodic fallback exists", firstInstr(root), "no constant-period ticker/timer paces the follower loop: a lost watch event leaves the vacancy unnoticed")
+	}
+	// the channel the loop waits on for its ticks is always a live timer channel: a nil channel (a
+	// helper that hands out a ticker "only for a follower", sampled when the watch is set up) blocks
+	// that case for ever - the loop outlives the role it was set up in
+	for _, f := range sortedFns(loopFns) {
+		eachInstr(f, func(in ssa.Instruction) {
+			sel, ok := in.(*ssa.Select)
+			if !ok || !sel.Blocking {
+				return
+			}
+			for k, st := range sel.States {
+				ct, isChan := st.Chan.Type().Underlying().(*types.Chan)
+				if !isChan || st.Dir != types.RecvOnly || !isNamed(ct.Elem(), "time", "Time") {
+					continue
+				}
+				var nilFrom []string
+				var walk func(v ssa.Value, depth int)
+				walk = func(v ssa.Value, depth int) {
+					if depth > 8 || v == nil {
+						return
+					}
+					switch x := m.traceValue(v).(type) {
+					case *ssa.Const:
+						if x.Value == nil {
+							nilFrom = append(nilFrom, c.posOf(in))
+						}
+					case *ssa.Phi:
+						for _, e := range x.Edges {
+							walk(e, depth+1)
+						}
+					case *ssa.ChangeType:
+						walk(x.X, depth+1)
+					case *ssa.Extract:
+						if call, isCall := x.Tuple.(*ssa.Call); isCall {
+							if g := call.Call.StaticCallee(); g != nil && m.isLib(g) && g.Blocks != nil {
+								for _, b := range liveBlocks(g) {
+									if ret, isRet := b.Instrs[len(b.Instrs)-1].(*ssa.Return); isRet && b != g.Recover && x.Index < len(ret.Results) {
+										if kk, isC := returnValue(ret, x.Index).(*ssa.Const); isC && kk.Value == nil {
+											nilFrom = append(nilFrom, c.posOf(ret))
+										} else {
+											walk(returnValue(ret, x.Index), depth+1)
+										}
+									}
+								}
+							}
+						}
+					case *ssa.Call:
+						if g := x.Call.StaticCallee(); g != nil && m.isLib(g) && g.Blocks != nil && g.Signature.Results().Len() == 1 {
+							for _, b := range liveBlocks(g) {
+								if ret, isRet := b.Instrs[len(b.Instrs)-1].(*ssa.Return); isRet && b != g.Recover {
+									if kk, isC := returnValue(ret, 0).(*ssa.Const); isC && kk.Value == nil {
+										nilFrom = append(nilFrom, c.posOf(ret))
+									} else {
+										walk(returnValue(ret, 0), depth+1)
+									}
+								}
+							}
+						}
+					}
+				}
+				walk(st.Chan, 0)
+				c.check(len(nilFrom) == 0, "R2", fmt.Sprintf("tick channel of the follower loop is never nil: select case #%d in %s", k, shortFn(f)), in, "the timer channel this case receives from can be nil (from %v): the case then never fires, and with it the periodic existence check", nilFrom)
+			}
+		})
 	}
 	// the periodic check function: called from the loop functions under claim==false, contains Get
 	nChk := 0
